@@ -86,6 +86,9 @@ func encodingByName(s string) (encoding.Encoding, bool) {
 	return nil, false
 }
 
+// name given to the field a Field* method adds (histories: one name per step)
+var curFieldName = "x"
+
 // buildArgs converts the textual args to reflect values according to the method's signature.
 // Field* methods get the field name "x"; variadic mappers get nothing.
 func buildArgs(m reflect.Method, args []string) ([]reflect.Value, bool, error) {
@@ -100,7 +103,7 @@ func buildArgs(m reflect.Method, args []string) ([]reflect.Value, bool, error) {
 	for i := 1; i < n; i++ { // 0 is the receiver
 		pt := t.In(i)
 		if i == 1 && pt.Kind() == reflect.String && strings.Contains(m.Name, "Field") {
-			in = append(in, reflect.ValueOf("x"))
+			in = append(in, reflect.ValueOf(curFieldName))
 			isField = true
 			continue
 		}
@@ -714,6 +717,10 @@ func main() {
 				runFn(o, ws[1:])
 				continue
 			}
+			if len(ws) >= 4 && ws[0] == "hist" {
+				replayHist(o, l)
+				continue
+			}
 			if len(ws) < 6 || ws[0] != "rd" {
 				continue
 			}
@@ -737,6 +744,12 @@ func main() {
 			runCaseHex(o, shape, L, buf, ws[2], pos, ws[4], ws[5], ws[6:])
 		}
 		return
+	}
+	for _, a := range cfg.Args {
+		if a == "hist" {
+			generateHist(o, cfg)
+			return
+		}
 	}
 	generate(o, cfg)
 }
